@@ -362,6 +362,16 @@ func unitC05(e common.Env, p *common.Part) {
 		p.Begin(cs.String())
 		rng := e.Rng("c05", i)
 		r := runC05(cs, rng)
+		for extra := 0; extra < e.Pick(0, 4) && len(r.d.panics) == 0 && r.ok; extra++ {
+			// thorough: further delivery orders of the same case; the last run is judged below, earlier ones here
+			if sig, what := c05oracle(cs, r, rng); sig != "" {
+				break
+			} else {
+				_ = what
+			}
+			p.Count("runs", 1)
+			r = runC05(cs, e.Rng("c05", i, extra))
+		}
 		p.Case(cs.String(), r.effected)
 		p.Count("runs", 1)
 		if r.effected {
